@@ -19,6 +19,12 @@ def wf_measure(w, pfx, obj, is_pdf=False, logdet=True):
     lnZ = getattr(obj, "lnZ", None)
     w.check(f"{pfx}/batch/axes", _lead(L) == _lead(nu) == _lead(obj.ln_beta),
             f"Lambda {L.shape}, nu {nu.shape}, ln_beta {obj.ln_beta.shape}")
+    if type(obj).__name__ in ("GaussianMeasure", "GaussianDiagMeasure"):
+        # the covariance cache is filled and copied as a whole (invert_lambda, slice, the products): a partially filled
+        # cache makes the next copy (`jnp.take(None, ...)`) fail
+        state = [Sg is None, ldS is None, ldL is None]
+        w.check(f"{pfx}/wf/covariance-cache-all-or-none", len(set(state)) == 1,
+                f"Sigma is None: {state[0]}, ln_det_Sigma is None: {state[1]}, ln_det_Lambda is None: {state[2]}")
     if Sg is not None:
         _inverse_clause(w, f"{pfx}/wf/Sigma*Lambda=I", Sg, L, Dsz)
         w.equal(f"{pfx}/wf/Sigma-symmetric", Sg, xp.swapaxes(Sg, 1, 2))
